@@ -86,7 +86,7 @@ class Program:
 
     def resolve(self, qualname):
         """'valida.conditions:Condition._filter' -> real function object."""
-        mod, path = qualname.split(":")
+        mod, path = qualname.split("#")[0].split(":")
         obj = self.modules[mod]
         for p in path.split("."):
             try:
